@@ -39,7 +39,7 @@ NoDup(c) == Cardinality(ToSet(c.nondust)) = Len(c.nondust) /\ Cardinality(ToSet(
 TraceInit ==
   /\ l = 1 /\ nodeOf = <<>> /\ saved = <<>> /\ everRAA = <<>> /\ projB = <<>>
   /\ fw = [adds |-> {}, downFul |-> {}, upClaimed |-> {}, settledNow |-> {}, base0 |-> <<>>, pol |-> <<>>,
-           shut |-> {}, closeFee |-> <<>>, newInfl |-> {}, crashed |-> {}, liveAtCrash |-> {}, snapKnows |-> <<>>, needSent |-> {}, owed |-> {}, settled |-> FALSE, pays |-> {}, claimedEv |-> {}, sentEv |-> {}, failEv |-> {}, lastMgr |-> <<>>, cuid |-> <<>>, failedNow |-> {}, ruid |-> <<>>, claimable |-> <<>>, mustClaim |-> {}, mustAcc |-> {}, gs |-> <<>>, reloaded |-> {}, dirty |-> {}, evhead |-> <<>>, dustCfg |-> FALSE]
+           shut |-> {}, closeFee |-> <<>>, newInfl |-> {}, crashed |-> {}, liveAtCrash |-> {}, snapKnows |-> <<>>, needSent |-> {}, owed |-> {}, settled |-> FALSE, pays |-> {}, claimedEv |-> {}, sentEv |-> {}, failEv |-> {}, lastMgr |-> <<>>, cuid |-> <<>>, failedNow |-> {}, ruid |-> <<>>, claimable |-> <<>>, mustClaim |-> {}, mustAcc |-> {}, gs |-> <<>>, reloaded |-> {}, dirty |-> {}, evhead |-> <<>>, dustCfg |-> FALSE, shutBy |-> {}]
   /\ par = <<>> /\ cnt = <<>> /\ hs = <<>> /\ fees = <<>> /\ feeBase = <<>> /\ base = <<>>
   /\ link = <<>> /\ redo = <<>> /\ lastCS = <<>> /\ order = <<>> /\ pts = <<>> /\ mon = <<>>
   /\ ownExp = <<>>
@@ -72,7 +72,7 @@ TOpen ==
         /\ saved' = <<>> /\ projB' = <<>>
         /\ fw' = [adds |-> {}, downFul |-> {}, upClaimed |-> {}, settledNow |-> {},
                    base0 |-> [e \in E |-> IF e[2] = 1 THEN cs[ch(e[1])].bal_a_msat ELSE cs[ch(e[1])].bal_b_msat],
-                   pol |-> R.policy, shut |-> {}, closeFee |-> [c \in C |-> 0], newInfl |-> {}, crashed |-> {}, liveAtCrash |-> {}, snapKnows |-> <<>>, needSent |-> {}, owed |-> {}, settled |-> FALSE, pays |-> {}, claimedEv |-> {}, sentEv |-> {}, failEv |-> {}, lastMgr |-> <<>>, cuid |-> <<>>, failedNow |-> {}, ruid |-> <<>>, claimable |-> <<>>, mustClaim |-> {}, mustAcc |-> {}, gs |-> <<>>, reloaded |-> {}, dirty |-> {}, evhead |-> <<>>, dustCfg |-> FALSE]
+                   pol |-> R.policy, shut |-> {}, closeFee |-> [c \in C |-> 0], newInfl |-> {}, crashed |-> {}, liveAtCrash |-> {}, snapKnows |-> <<>>, needSent |-> {}, owed |-> {}, settled |-> FALSE, pays |-> {}, claimedEv |-> {}, sentEv |-> {}, failEv |-> {}, lastMgr |-> <<>>, cuid |-> <<>>, failedNow |-> {}, ruid |-> <<>>, claimable |-> <<>>, mustClaim |-> {}, mustAcc |-> {}, gs |-> <<>>, reloaded |-> {}, dirty |-> {}, evhead |-> <<>>, dustCfg |-> FALSE, shutBy |-> {}]
 
 \* not part of the commitment protocol; `warning` / `disconnect_peer` ask the transport to drop the
 \* peer (the harness then disconnects, as PeerManager would) -- an `error` is never acceptable
@@ -111,12 +111,12 @@ TMsg ==
             IF R.kind = "update_add_htlc"
             THEN [fw EXCEPT !.adds = @ \cup {[node |-> R.from, chan |-> R.chan, dir |-> "out", hash |-> R.hash, amt |-> R.amt, cltv |-> R.cltv]}]
             ELSE IF R.kind = "update_fulfill_htlc" THEN [fw EXCEPT !.upClaimed = @ \cup {<<R.from, R.hash>>}]
-            ELSE IF R.kind = "shutdown" THEN [fw EXCEPT !.shut = @ \cup {R.chan}]
+            ELSE IF R.kind = "shutdown" THEN [fw EXCEPT !.shut = @ \cup {R.chan}, !.shutBy = @ \cup {<<R.chan, R.from>>}]
             ELSE IF R.kind = "closing_signed" THEN [fw EXCEPT !.closeFee[R.chan] = R.fee]
             ELSE fw
-  \* after shutdown no new HTLC is offered
+  \* a node that has sent its shutdown offers no new HTLC (its peer may, until it has sent its own: the two cross)
   /\ (R.chan # 0 /\ R.kind = "update_add_htlc" /\ ~Closed(EP(R.chan, R.from))) =>
-        G1(R.chan \notin fw.shut \/ Has(EP(R.chan, R.from), "out", R.id))
+        G1(<<R.chan, R.from>> \notin fw.shutBy \/ Has(EP(R.chan, R.from), "out", R.id))
   /\ (R.chan # 0 /\ R.kind = "update_add_htlc") => G2(ForwardTerms(R.from, R.amt, R.cltv, R.hash))
   \* C02: HTLCs too small to have an output on either commitment are forfeited to fees if the channel closes; the node keeps
   \* their total within its configured dust-exposure limit: it does not OFFER a further one (its own payment or a forward)
